@@ -527,6 +527,13 @@ func main() {
 
 		confirmed := false
 
+		fns := map[string]string{}
+		for _, res := range ci.list {
+			fns[res.k.Fn] = ""
+		}
+
+		fmt.Printf("INFO cell %s: %d cases, functions %s\n", cell, len(ci.list), strings.Join(sortedKeys(fns), " "))
+
 		for i, res := range ci.list {
 			if i >= 3 {
 				break
